@@ -227,7 +227,7 @@ class Ctx(object):
             "stopped_by_budget": self.stopped_by_budget,
             "pool_stats": self.pool.stats,
             "missing_interpreters": self.pool.missing,
-            "interpreters": {v: self.pool.paths[v] for v in self.pool.workers},
+            "interpreters": dict(self.pool.started),
             "extra": self.extra,
             "collected": self.collected,
             "wall_s": time.monotonic() - self.t0,
